@@ -68,9 +68,20 @@ Definition is_in (id : N) (l : list N) : bool := existsb (N.eqb id) l.
 Definition closed_by_recovery (p : plan) (o : pobs) : bool :=
   reason_eqb (o_reason o) FRExceedRecovery && negb (reason_eqb (p_reason p) FRExceedRecovery).
 
+Definition head_failed (l : list (option state)) : bool :=
+  match l with Some s :: _ => status_eqb (s_status s) Failed | _ => false end.
+
+(* ... or, where the stored reason cannot be told (a tree on which Read drops it): the plan is Failed with
+   no reason, no plugin ran, and the vault saw at most one write per object - a run of the engine calls
+   a plugin or ends with more writes than that, and records a reason when it fails a plan *)
+Definition aged_like (p : plan) (o : pobs) : bool :=
+  head_failed (o_states o) && Nat.eqb (o_calls o) 0 && Nat.ltb 0 (o_writes o)
+  && Nat.leb (o_writes o) (length (rows_plan p)) && reason_eqb (o_reason o) FRUnknown.
+
 Definition plan_code (c : case) (resumed : list N) (p p' : plan) (o : pobs) : nat :=
   if is_in (pid p) resumed then
-    (if closed_by_recovery p o then 7 else if Nat.ltb 0 (o_calls o + o_writes o) then 0 else 3)
+    (if closed_by_recovery p o || aged_like p o then 7
+     else if Nat.ltb 0 (o_calls o + o_writes o) then 0 else 3)
   else if negb (o_same o) then 5
   else if negb (list_eqb ostate_eqb (map row_state (rows_plan p'))
                          (norm_states (k_t0 c) (k_t1 c) (map row_state (rows_plan p)) (o_states o))
@@ -105,9 +116,6 @@ Definition unchanged (p : plan) (o : pobs) : bool :=
 Definition not_running (st : option state) : bool :=
   match st with Some s => negb (status_eqb (s_status s) Running) | None => true end.
 
-Definition head_failed (l : list (option state)) : bool :=
-  match l with Some s :: _ => status_eqb (s_status s) Failed | _ => false end.
-
 (*   1 = the property holds of this plan, 0 = it does not
      - recovery disabled, or the plan is not durably Running: identical afterwards, no plugin call, no write
      - Running and stale (at k_t0 already): Failed / ExceedRecovery, nothing Running, no plugin call,
@@ -121,7 +129,7 @@ Definition mon_plan (c : case) (p : plan) (o : pobs) : bool :=
     o_same o && reason_eqb (o_reason o) FRExceedRecovery && head_failed (o_states o)
     && forallb not_running (o_states o) && Nat.eqb (o_calls o) 0
   else if negb (is_staleb (k_t1 c) (k_maxage c) p) then
-    Nat.ltb 0 (o_calls o + o_writes o) && negb (closed_by_recovery p o)
+    Nat.ltb 0 (o_calls o + o_writes o) && negb (closed_by_recovery p o || aged_like p o)
   else true.
 
 Fixpoint mon_all (c : case) (s : list plan) (os : list pobs) : bool :=
